@@ -16,4 +16,4 @@ def run(ctx):
     )
     records = collect_walk_effects(ctx)
     read_set_rule(ctx, "C19.read-set", records)
-    run_kernels(ctx, ["K7", "K14"], "C19")
+    run_kernels(ctx, ["K7", "K14", "K15", "K0", "K10"], "C19")
